@@ -1274,6 +1274,20 @@ class Interp:
         args = [_unlin(a) for a in args]
         if name == "object.__init__":
             return None
+        if name in ("ext:copy.deepcopy", "ext:copy.copy", "deepcopy") and args:
+            deep = not name.endswith(".copy")
+
+            def cp(v, top=True):
+                if isinstance(v, list):
+                    return [cp(x, False) if deep else x for x in v]
+                if isinstance(v, dict):
+                    return {k: (cp(x, False) if deep else x) for k, x in v.items()}
+                if isinstance(v, set):
+                    return set(v)
+                if isinstance(v, tuple):
+                    return tuple(cp(x, False) if deep else x for x in v)
+                return v
+            return cp(args[0])
         if name == "len":
             v = args[0]
             if v is None or isinstance(v, (int, float)) and not isinstance(v, bool):
